@@ -16,11 +16,11 @@ def gate_replay(ctx):
     nsched = sum(1 for x in open(sched) if "VERIF-SCHED" in x)
     exe = build("gatedb")
     nproc = 8
-    stride = (3 if ctx.quick else 1) * nproc
+    stride = (2 if ctx.quick else 1) * nproc
 
     def drive(i):
         out = ctx.path("gate-%d.ndjson" % i)
-        off = (ctx.seed % 3) * nproc + i if ctx.quick else i
+        off = (ctx.seed % 2) * nproc + i if ctx.quick else i
         s = run_driver([exe, "-in", sched, "-out", out, "-stride", str(stride), "-offset", str(off)], timeout=1200)
         s["path"], s["seed"], s["row"], s["cmd"] = out, i, "gate", "gatedb -stride %d -offset %d" % (stride, off)
         return s
@@ -49,7 +49,7 @@ def main(ctx):
             if not r["violated"]:
                 raise HarnessError("ReadPath mutant %d no longer violates ReadCorrect" % m)
     gate_replay(ctx)
-    n = 28 if ctx.quick else 240
+    n = 64 if ctx.quick else 240
     jobs = [{"seed": ctx.seed * 1000 + i, "tag": "lin", "writers": 2 + i % 3, "readers": 2 + i % 3,
              "n": 140 if ctx.quick else 400} for i in range(n)]
     sums = conc_runs(ctx, jobs)
